@@ -132,6 +132,19 @@ func (g *ExprGen) selector(parts []string) string {
 	if len(parts) == 0 {
 		return "nothing"
 	}
+	if len(parts) > 0 && g.R.Chance(0.04) {
+		// a selector spelled in another case than the key it aims at
+		parts = append([]string(nil), parts...)
+		i := g.R.Intn(len(parts))
+		switch g.R.Intn(3) {
+		case 0:
+			parts[i] = strings.ToUpper(parts[i])
+		case 1:
+			parts[i] = strings.ToLower(parts[i])
+		default:
+			parts[i] = strings.Title(strings.ToLower(parts[i]))
+		}
+	}
 	okPtr := true
 	for _, p := range parts {
 		if !ptrSegRe.MatchString(p) {
